@@ -319,6 +319,14 @@ def step (st : State) (w : List String) : State × String :=
     match cap.toNat?, ttl.toNat?, parseBool sc with
     | some cap, some ttl, some sc => (st, s!"ttl={storedTTL sc cap ttl}")
     | _, _, _ => (st, "bad-op")
+  | ["ecs", "dedup", ca, oa, cda, cb, ob, cdb] =>
+    -- do two cache-missing requests for one question share a downstream resolution?
+    match parseClient ca false, parseOpts oa, parseBool cda, parseClient cb false, parseOpts ob, parseBool cdb with
+    | some ca, some oa, some cda, some cb, some ob, some cdb =>
+      let scopeOf (c : Option Addr) (o : Option (List Opt)) : Option Prefix :=
+        requestScope st.pol c (some (setEdns0 st.pol c (o.getD [])))
+      (st, s!"same={boolStr (dedupKey 7 cda (scopeOf ca oa) == dedupKey 7 cdb (scopeOf cb ob))}")
+    | _, _, _, _, _, _ => (st, "bad-op")
   | ["ecs", "readscope", opts] =>
     match parseOpts opts with
     | some o => (st, showPrefix? (readResponseScope o))
